@@ -149,3 +149,20 @@ _m("C19", "twin discretisations on the same field through the real rhs: (euler1d
           "monitor, None entries exactly 0, every callable called exactly once per rhs, no leak between model instances.  "
           "non-trivial: finite residuals; distinct = hash(config + sources).",
    exhaustive_groups=["subsets of equations carrying a source (2^neq per model)"])
+
+_m("C20", "always-on monitor on every outermost mesh constructor return (mesh1d/unimesh, refinedmesh, morphedmesh, mesh2d): face count, "
+          "strict monotonicity, end points (image of the end points for a morphing), centres bitwise at face midpoints, positive "
+          "volumes summing to the span, exact averages of constants, two uniform zones with the requested ratio when the zone "
+          "proportion is a whole number of cells; 2D counts, volumes, centres, the four boundary index sets against the "
+          "geometrically computed faces, outward unit normals, and orientation/adjacency cross-checked with the real first-order "
+          "reconstruction.  Workload: ncell 1..200, nx,ny 1..12, lengths/origins over 10^+-3, ratios 0.1..10, integer and real zone "
+          "proportions, affine/sinusoidal/exponential/piecewise morphings, plus the meshes the other workloads build.  "
+          "non-trivial: every constructed mesh; distinct = hash(arguments).")
+
+_m("C04", "final fields of real solves on mesh sequences: linear convection (speed of either sign, 1-3 random Fourier modes as exact cell "
+          "averages, rk4/rk3ssp, 4 levels from 12-20 cells upward) for every reconstruction: least-squares order inside the design "
+          "band; Euler Riemann problems (random non-vacuum data, ratios <= 10, |u|<c, each third as mirror image, {hlle,hllc} x "
+          "{extrapol1, muscl(4 limiters)} x {explicit, rk2_heun, rk3ssp}) on 50/100/200/400 cells against an independent exact "
+          "Riemann solver (Toro): L1 error ratio < 0.97 per doubling, <= 0.7 overall; packaged reference solutions "
+          "(solution.euler_riemann, solution.euler_nozzle) pointwise against the independent exact solver / area-Mach + normal-shock "
+          "relations in the subsonic, shocked and supersonic regimes.  non-trivial: every sequence; distinct = hash(config + data).")
